@@ -8,6 +8,7 @@
   to show it is itself preserved.
 -/
 import Hw.Bitmap.History
+import Hw.Bitmap.Inclusion
 namespace Hw.Props.C03
 open Hw Hw.Bitmap
 
@@ -75,6 +76,21 @@ theorem C03_nr_ulongs_last (b : Bitmap) (h : b.inf = false) (l : Nat) (hl : b.la
 above an eventually-empty one) -/
 theorem C03_compare (a b : Bitmap) : IsCompare a.mem b.mem (a.compare b) := compare_spec a b
 
+/-- `compare_first`: the sign is that of comparing the two `first` indexes, the empty set being the
+greatest (the C returns a difference of bit positions; only its sign is a comparator contract) -/
+theorem C03_compare_first (a b : Bitmap) : sgn (a.compareFirst b) = cmpFirstSpec a.first b.first :=
+  compareFirst_spec a b
+
+/-- `compare_inclusion` is the set-theoretic classification (EQUAL / INCLUDED / CONTAINS / INTERSECTS /
+DIFFERENT, the empty set being included in everything) -/
+theorem C03_compare_inclusion (a b : Bitmap) :
+    a.compareInclusion b =
+      if a.isequal b then .equal
+      else if a.isincluded b then .included
+      else if b.isincluded a then .contains
+      else if a.intersects b then .intersects
+      else .different := compareInclusion_eq a b
+
 /-! ## 3. results do not depend on the representation (the history that built the arguments) -/
 
 section ReprIndependence
@@ -134,6 +150,20 @@ theorem C03_repr_isincluded (h : ∀ n, a.mem n = a'.mem n) (g : ∀ n, b.mem n 
     a.isincluded b = a'.isincluded b' := by
   apply Bool.eq_iff_iff.mpr; rw [isincluded_iff, isincluded_iff]; simp only [h, g]
 
+theorem C03_repr_compare (h : ∀ n, a.mem n = a'.mem n) (g : ∀ n, b.mem n = b'.mem n) :
+    a.compare b = a'.compare b' := by
+  have e1 : a.mem = a'.mem := funext h
+  have e2 : b.mem = b'.mem := funext g
+  have h1 := compare_spec a b; rw [e1, e2] at h1
+  exact h1.unique (compare_spec a' b')
+theorem C03_repr_compare_first (h : ∀ n, a.mem n = a'.mem n) (g : ∀ n, b.mem n = b'.mem n) :
+    sgn (a.compareFirst b) = sgn (a'.compareFirst b') := by
+  rw [compareFirst_spec, compareFirst_spec, C03_repr_first h, C03_repr_first g]
+theorem C03_repr_compare_inclusion (h : ∀ n, a.mem n = a'.mem n) (g : ∀ n, b.mem n = b'.mem n) :
+    a.compareInclusion b = a'.compareInclusion b' := by
+  rw [compareInclusion_eq, compareInclusion_eq, C03_repr_isequal h g, C03_repr_isincluded h g,
+    C03_repr_isincluded g h, C03_repr_intersects h g]
+
 end ReprIndependence
 
 /-! ## non-vacuity: two different representations of the set {64, 65, …} -/
@@ -148,5 +178,8 @@ example : ∀ n, ex1.mem n = ex2.mem n := by
   rw [mem_setRange_none, mem_clrRange_some, mem_fill, mem_alloc]
   by_cases h : 64 ≤ n <;> simp [h] <;> omega
 example : ex1.first = 64 ∧ ex2.first = 64 := by decide
+-- the pair on which the pinned tree (before the `fix:` commit) returned opposite signs
+example : sgn (ex1.compareFirst Bitmap.alloc) = -1 ∧ sgn (ex2.compareFirst Bitmap.alloc) = -1 := by decide
+example : ex1.compareInclusion ex2 = .equal ∧ Bitmap.alloc.compareInclusion ex1 = .included := by decide
 
 end Hw.Props.C03
